@@ -33,7 +33,8 @@ def make(shape, cards, names=None, abstract=None, ctc_code=0, attrs=None, ctc_na
     names = names or ['F%d' % i for i in range(n)]
     trees = CTCS[ctc_code] if n >= 2 else []
     trees = [_rename(t, {'F0': names[0], 'F1': names[1]}) for t in trees] if n >= 2 else []
-    ctcs = [R.ctc((ctc_names[i] if ctc_names else 'ctc %d' % i), t) for i, t in enumerate(trees)]
+    ctc_names = ctc_names or R.ctc_names(len(trees), n + len(cards), 'ctc %d')
+    ctcs = [R.ctc(ctc_names[i], t) for i, t in enumerate(trees)]
     m = R.build(shape, cards, names=names, abstract=abstract, ctcs=ctcs)
     if attrs:
         feats = _index(m)
